@@ -69,3 +69,6 @@ Definition agrees_o (c : ocase) : bool :=
 
 (* observed key of iteration j is the model's Advance key of iteration j *)
 Definition agrees_keys (l : list nat) : bool := list_eqb Nat.eqb l (seq 0 (length l)).
+
+(* the stale-carry variant (code as found, known finding F7): every iteration uses the key of iteration 0 *)
+Definition agrees_keys_stale (l : list nat) : bool := forallb (Nat.eqb 0) l.
